@@ -1,5 +1,5 @@
 (* C05 - no silent failure. Statements only. *)
-From Plush Require Import model.Bytes model.Ast model.Value model.Eval proofs.EvalProofs.
+From Plush Require Import model.Bytes model.Ast model.Value model.Eval proofs.EvalProofs proofs.QuietProofs.
 
 (* the tolerant sites (!, ==, !=, &&, ||, if / else-if conditions) let exactly one
    kind of error through: an unwrapped unknown identifier *)
@@ -46,3 +46,37 @@ Print Assumptions C05_tolerate_spec.
 Print Assumptions C05_infix_left_failure.
 Print Assumptions C05_infix_right_failure.
 Print Assumptions C05_exec_failure.
+
+(* ---- the property as an invariant of every execution (proofs/QuietProofs.v) ----
+   fa st = the arguments of the failing-helper invocations in the log of st,
+   newest first; fail_args z = how the failing helper configured with sentinel
+   z logs its call (the correspondence check compares exactly this log and the
+   sentinel with what the Go harness observed).  For every environment, fuel,
+   starting state and template: *)
+
+(* a render that returns output invoked no failing helper *)
+Theorem C05_success_means_nothing_failed : forall G fuel st input out st1,
+  render G fuel st input = OOk out st1 -> fa st1 = fa st.
+Proof. exact render_ok_no_failure. Qed.
+Print Assumptions C05_success_means_nothing_failed.
+
+(* once a failing helper has been invoked the render cannot return output *)
+Theorem C05_invoked_failure_cannot_succeed : forall G fuel st input out st1,
+  fa st1 <> fa st -> render G fuel st input <> OOk out st1.
+Proof. exact invoked_failure_cannot_succeed. Qed.
+Print Assumptions C05_invoked_failure_cannot_succeed.
+
+(* a render that fails either invoked no failing helper, or exactly one: nothing
+   failing ran after it and the error returned is that helper's sentinel
+   (errors.Is); OErr carries no output *)
+Theorem C05_failure_is_the_helpers_error : forall G fuel st input l e st1,
+  render G fuel st input = OErr l e st1 ->
+  fa st1 = fa st \/ exists z, e = EFail (Some (Z.to_N z)) /\ fa st1 = fail_args z :: fa st.
+Proof. exact render_err_reports_the_failure. Qed.
+Print Assumptions C05_failure_is_the_helpers_error.
+
+(* the same for every expression, in the middle of any evaluation: a value, or
+   the one tolerated fault, means no failing helper was invoked on the way *)
+Theorem C05_expression_invariant : forall G fuel st e, Q (fa st) (eval G fuel st e).
+Proof. exact eval_quiet. Qed.
+Print Assumptions C05_expression_invariant.
